@@ -290,3 +290,13 @@ def add3(a, b, c):
 
 def star_tuple(t):
     return add3(1, *t)
+
+
+def neighbour_colors(adj, colors):
+    return {colors[n] for n in adj if n in colors}
+
+
+def starts_alpha(key):
+    if key[0].isalpha():
+        return 1
+    return 0
